@@ -59,6 +59,54 @@ def dword(state, *dword_operand: int32) -> bytes:
     return prefix + b"".join(encode_i32(operand) for operand in dword_operand)
 
 
+def string_chunks(string):
+    if isinstance(string, types.StringConcatenation):
+        return string.chunks
+    else:
+        return [string]
+
+
+def ascii_size(state, *operands):
+    # The number of bytes is known without evaluating the '<expr>' chunks: each
+    # of them is one byte, whatever its value. Announcing it keeps a label that
+    # follows the directive from depending on the directive's contents, which
+    # may in turn mention that label ('.ascii <b>' / 'b:').
+    if len(operands) != 1:
+        return None
+    total = 0
+    for chunk in string_chunks(operands[0]):
+        if isinstance(chunk, types.AngleBracketedChar):
+            total += 1
+        elif isinstance(chunk, types.QuotedString):
+            try:
+                total += len(chunk.string.encode(state["compiler"].output_charset))
+            except UnicodeEncodeError:
+                return None
+        else:
+            return None
+    return total
+
+
+def asciz_size(state, *operands):
+    size = ascii_size(state, *operands)
+    return None if size is None else size + 1
+
+
+def rad50_size(state, *operands):
+    # Likewise: every character and every '<expr>' chunk is one radix-50 digit
+    if len(operands) != 1:
+        return None
+    count = 0
+    for chunk in string_chunks(operands[0]):
+        if isinstance(chunk, types.AngleBracketedChar):
+            count += 1
+        elif isinstance(chunk, types.QuotedString):
+            count += len(chunk.string)
+        else:
+            return None
+    return (count + 2) // 3 * 2
+
+
 def ascii_impl(state, string) -> bytes:
     if isinstance(string, types.StringConcatenation):
         chunks = string.chunks
@@ -83,17 +131,17 @@ def ascii_impl(state, string) -> bytes:
 
 
 # pylint: disable=redefined-builtin
-@metacommand(raw=True)
+@metacommand(raw=True, size=ascii_size)
 def ascii_(state, ascii_text: str) -> bytes:
     return ascii_impl(state, ascii_text)
 
 
-@metacommand(raw=True)
+@metacommand(raw=True, size=asciz_size)
 def asciz(state, ascii_text: str) -> bytes:
     return ascii_impl(state, ascii_text) + b"\x00"
 
 
-@metacommand(raw=True)
+@metacommand(raw=True, size=rad50_size)
 def rad50(state, string: str) -> bytes:
     if isinstance(string, types.StringConcatenation):
         chunks = string.chunks
